@@ -156,6 +156,7 @@ func TestFileReadAt(tb testing.TB, o FSOptions) {
 				err = nil
 			}
 			if tc.expectErr != nil {
+				assert.Error(tb, err)
 				if _, ok := err.(*hackpadfs.PathError); ok {
 					o.assertEqualPathErr(tb, &hackpadfs.PathError{
 						Op:   "readat",
